@@ -6,16 +6,16 @@ from sx.shims import patched
 
 ID = "C35"
 MANIFEST = {
-    "technique": "bounded model checking with solver-decided choice (SX engine) of the Python side of the protocol: the real EbuildProcessor.generic_handler / expect / _consume_async_expects / readlines / write run on a processor object whose channel to the daemon is a scripted stub; the sequence of daemon-side events (replies to batched asynchronous expectations, matching or not; helper-style requests that need exactly one answer; request_sandbox_summary; phase completion and failure; die with a multi-line message; SIGINT and SIGTERM notices arriving between requests and in the middle of the expectation replies; unknown commands; an empty line) and the number of batched expectations are symbolic selectors; the engine forks over every feasible event sequence and checks what the Python side reads and writes against the protocol rules",
-    "level_text": "Bounded model checking, exhaustive within the bound (0-2 batched expectations x event sequences of length <= 3 over a 10-event menu, each closed by a terminal event): the Python side never reads when the daemon has nothing left to send (never both waiting), answers every request that needs an answer exactly once and before reading on, consumes exactly one reply per batched expectation, ends the session with UnhandledCommand on an unknown command, on a misaligned expectation reply and on the daemon's failure notices instead of misreading them, returns the phase result for 'phases succeeded', raises ProcessorError for 'phases failed', and turns die / SIGINT / SIGTERM notices into their exceptions wherever they arrive. The daemon side is a script (the bash implementation is outside this check).",
+    "technique": "bounded model checking with solver-decided choice (SX engine) of the Python side of the protocol: the real EbuildProcessor.generic_handler / expect / _consume_async_expects / readlines / write run on a processor object whose channel to the daemon is a scripted stub; the sequence of daemon-side events (replies to batched asynchronous expectations, matching or not; helper-style requests that need exactly one answer; request_sandbox_summary; phase completion and failure; die with a multi-line message; SIGINT and SIGTERM notices arriving between requests and in the middle of the expectation replies; unknown commands; an empty line) the number of batched expectations and whether their requests were written through or left in the write buffer are symbolic selectors; the engine forks over every feasible event sequence and checks what the Python side reads and writes against the protocol rules",
+    "level_text": "Bounded model checking, exhaustive within the bound (0-2 batched expectations x event sequences of length <= 3 over a 10-event menu, each closed by a terminal event): the Python side never reads when the daemon has nothing left to send and never reads a reply while its own request is still unflushed in its write buffer (never both waiting), answers every request that needs an answer exactly once and before reading on, consumes exactly one reply per batched expectation, ends the session with UnhandledCommand on an unknown command, on a misaligned expectation reply and on the daemon's failure notices instead of misreading them, returns the phase result for 'phases succeeded', raises ProcessorError for 'phases failed', turns die / SIGINT / SIGTERM notices into their exceptions wherever they arrive, and a timed request disarms its alarm however it ends. The daemon side is a script (the bash implementation is outside this check).",
     "level_note": "Python side only: the bash loops (__ebd_main_loop, __ebd_process_ebuild_phases) are not executed, so agreement between the two implementations is not decided here; the event menu is taken from the commands the bash side sends.",
 }
 META = {
     "modules": ["pkgcore.ebuild.processor"],
     "functions": ["processor.EbuildProcessor.generic_handler", "processor.EbuildProcessor.expect", "processor.EbuildProcessor._consume_async_expects", "processor.EbuildProcessor.readlines/read/write", "processor.chuck_* handlers"],
-    "stubs": ["the daemon channel (scripted reads, recorded writes)", "drop_ebuild_processor / shutdown_processor (recorded, no process is killed)", "processor object created without spawning bash"],
+    "stubs": ["the daemon channel (scripted reads, recorded writes)", "signal inside pkgcore.ebuild.processor (the alarm of a timed request is recorded, not armed)", "drop_ebuild_processor / shutdown_processor (recorded, no process is killed)", "processor object created without spawning bash"],
     "bounds": {"quick": "0-2 batched expectations, up to 3 events before the terminal one", "thorough": "same (the space is swept completely in both tiers)"},
-    "outside": ["the bash side of the protocol", "timeouts (SIGALRM)", "real pipes (partial lines, EPIPE)"],
+    "outside": ["the bash side of the protocol", "an alarm that actually goes off (only whether a timed request disarms it is checked)", "real pipes (partial lines, EPIPE)"],
     "assumptions": ["the daemon sends whole lines"],
     "selector_only": True,
 }
@@ -35,9 +35,11 @@ class BothWaiting(BaseException):
 
 class Channel:
     def __init__(self, lines):
-        self.lines, self.log = list(lines), []
+        self.lines, self.log, self.unflushed = list(lines), [], False
 
     def readline(self):
+        if self.unflushed:
+            raise BothWaiting("Python reads a reply while its own request is still in its write buffer (never flushed to the daemon)")
         if not self.lines:
             raise BothWaiting("Python reads while the daemon has nothing left to send")
         l = self.lines.pop(0)
@@ -46,9 +48,11 @@ class Channel:
 
     def write(self, s):
         self.log.append(("write", s))
+        self.unflushed = True
 
     def flush(self):
         self.log.append(("flush", None))
+        self.unflushed = False
 
 
 def make_ebp(lines):
@@ -64,7 +68,7 @@ def make_ebp(lines):
 class ProtocolHarness(Harness):
     def setup(self, eng):
         n = self.ob["n"]
-        return {"expects": [eng.int(f"expect_reply{i}", 0, len(EXPECT_REPLIES) - 1) for i in range(self.ob["nexp"])], "events": ([self.ob["first"]] if "first" in self.ob else []) + [eng.int(f"event{i}", 0, len(EVENTS) - 1) for i in range(n - (1 if "first" in self.ob else 0))], "terminal": eng.int("terminal", 0, len(TERMINALS) - 1), "timed": eng.bool("timed_request_while_replies_are_pending")}
+        return {"expects": [eng.int(f"expect_reply{i}", 0, len(EXPECT_REPLIES) - 1) for i in range(self.ob["nexp"])], "events": ([self.ob["first"]] if "first" in self.ob else []) + [eng.int(f"event{i}", 0, len(EVENTS) - 1) for i in range(n - (1 if "first" in self.ob else 0))], "terminal": eng.int("terminal", 0, len(TERMINALS) - 1), "timed": eng.bool("timed_request_while_replies_are_pending"), "buffered": eng.bool("batched_requests_written_without_flush") if self.ob["nexp"] else False}
 
     def body(self, inp):
         c = core.fix(inp) if core.ENG is not None else inp
@@ -94,15 +98,39 @@ class ProtocolHarness(Harness):
         extra = {"request_inherit": answer("request_inherit"), "request_bashrc": answer("request_bashrc"), "key": lambda e, *a: None}
         outcome = None
         timed_result = None
-        with patched((processor, "drop_ebuild_processor", lambda e: shutdowns.append("drop")), (processor.EbuildProcessor, "shutdown_processor", lambda self, force=False: shutdowns.append("shutdown")),
+        alarm = {"armed": False}
+
+        class FakeSignal:
+            """signal as seen by the processor: the alarm is recorded instead of armed"""
+            SIGALRM, SIG_DFL, ITIMER_REAL = "SIGALRM", "SIG_DFL", "ITIMER_REAL"
+
+            @staticmethod
+            def signal(sig, handler):
+                pass
+
+            @staticmethod
+            def setitimer(which, seconds):
+                alarm["armed"] = bool(seconds)
+
+            def __getattr__(self, name):
+                import signal as real
+
+                return getattr(real, name)
+
+        with patched((processor, "signal", FakeSignal()), (processor, "drop_ebuild_processor", lambda e: shutdowns.append("drop")), (processor.EbuildProcessor, "shutdown_processor", lambda self, force=False: shutdowns.append("shutdown")),
                      (processor.EbuildProcessor, "sandbox_summary", lambda self, *a: self.write("end_sandbox_summary"))):
             try:
                 for _, want in [(None, "start_receiving_env succeeded")] * len(exp):
-                    ebp.expect(want, async_req=True)
+                    # the request itself, written through at once or left in the buffer for the batch
+                    ebp.write("start_receiving_env", flush=not c.get("buffered"))
+                    ebp.expect(want, async_req=True, flush=True)
                 if timed:
                     # a liveness probe with a timeout while batched replies are still unread (is_responsive does this)
                     ebp.write("alive")
-                    timed_result = ebp.expect("yep!", flush=True, timeout=5)
+                    try:
+                        timed_result = ebp.expect("yep!", flush=True, timeout=5)
+                    finally:
+                        alarm["after_timed"] = alarm["armed"]
                 outcome = ("returned", ebp.generic_handler(extra))
             except BothWaiting as e:
                 outcome = ("both-waiting", str(e))
@@ -157,11 +185,13 @@ class ProtocolHarness(Harness):
                     want = ("ProcessorError", None)
         if special == "dying" and outcome[0] == "ProcessorError" and "the message" not in (outcome[1] or ""):
             problems.append(f"the die message was lost: {outcome[1]!r}")
+        if alarm.get("after_timed"):
+            problems.append("the timed request left its alarm armed: it goes off later, inside an unrelated exchange")
         if outcome[0] == "both-waiting":
             problems.append(outcome[1])
         elif want is not None and (outcome[0] != want[0] or (want[1] is not None and want[0] != "ProcessorError" and outcome[1] != want[1])):
             problems.append(f"ended with {outcome} instead of {want}")
-        writes = [s.strip() for k, s in ch.log if k == "write" and s.strip() != "alive"]
+        writes = [s.strip() for k, s in ch.log if k == "write" and s.strip() not in ("alive", "start_receiving_env")]
         got_answers = [w.replace("-answer", "") if w.endswith("-answer") else w for w in writes]
         if outcome[0] != "both-waiting" and got_answers != expected_answers[: len(got_answers)] or len(got_answers) < len(expected_answers) and outcome[0] in ("returned",):
             problems.append(f"answers {got_answers} instead of {expected_answers}")
